@@ -156,7 +156,8 @@ Qed.
 (* the buffer of a well-typed data record is the concatenation of its field encodings *)
 Lemma drec_buf tid r bs : wf_record r = true -> enc_all r = Some bs -> buf_of (drec tid r) = bs.
 Proof.
-  intros W E. unfold buf_of, drec, rec_buffer. cbn [rec_buffer_e].
+  intros W E. unfold buf_of, drec, rec_buffer. rewrite rec_buffer_e_data.
+  change (data_len_v1 r) with (record_len r). rewrite get_buffer_n_eq.
   rewrite (get_buffer_spec r bs W E). reflexivity.
 Qed.
 
